@@ -201,9 +201,21 @@ impl Ctx {
             "wall_s": (wall * 1000.0).round() / 1000.0,
             "violations": total,
         });
-        let evdir = root.join("evidence");
+        // A property checked by several engines writes one part per engine
+        // (VERIF_PART=<name>); engines/merge_parts.py combines them.
+        let (evdir, evpath) = match std::env::var("VERIF_PART") {
+            Ok(part) if !part.is_empty() => {
+                let d = root.join("target").join("parts");
+                let p = d.join(format!("{}.{}.json", self.id, part));
+                (d, p)
+            }
+            _ => {
+                let d = root.join("evidence");
+                let p = d.join(format!("{}.json", self.id));
+                (d, p)
+            }
+        };
         let _ = std::fs::create_dir_all(&evdir);
-        let evpath = evdir.join(format!("{}.json", self.id));
         if let Err(e) = std::fs::write(&evpath, serde_json::to_vec_pretty(&ev).unwrap()) {
             eprintln!(
                 "MACHINERY-ERROR property={} cannot write evidence: {e}",
